@@ -1183,6 +1183,16 @@ pub const CORPUS: &[RawCase] = &[
         expect_label: Some("comptime-param-typed-by-comptime-param-in-other-file"),
     },
     RawCase {
+        // the second and third call used the first call's `T` for the type of `v` (stale meta type
+        // of the header in the caller's area); visible only when the literals are of different kinds
+        name: "comptime-param-typed-by-earlier-comptime-param-same-file-different-kinds",
+        g: "pick :: (comptime T: type, comptime v: T) -> T { v }\nmain :: () {\n    core.println(pick(i32, 7));\n    core.println(pick(f64, 2.5));\n    core.println(pick(u8, 200));\n    core.println(pick(i32, 9));\n}\n",
+        m: "pick_m0 :: () -> i32 { 7 }\npick_m1 :: () -> f64 { 2.5 }\npick_m2 :: () -> u8 { 200 }\npick_m3 :: () -> i32 { 9 }\nmain :: () {\n    core.println(pick_m0());\n    core.println(pick_m1());\n    core.println(pick_m2());\n    core.println(pick_m3());\n}\n",
+        glib: "",
+        mlib: "",
+        expect_label: None,
+    },
+    RawCase {
         name: "comptime-param-typed-by-earlier-comptime-param-same-file",
         g: "addk :: (comptime T: type, comptime K: T, x: T) -> T { x + K }\nmain :: () {\n    core.println(addk(i32, 5, 1));\n    core.println(addk(u8, 250, 10));\n}\n",
         m: "addk_m0 :: (x: i32) -> i32 { x + i32.(5) }\naddk_m1 :: (x: u8) -> u8 { x + u8.(250) }\nmain :: () {\n    core.println(addk_m0(1));\n    core.println(addk_m1(10));\n}\n",
